@@ -263,3 +263,69 @@ func TestVerifReplayU2FSimultaneousPresentation(t *testing.T) {
 		t.Logf("REPLAY-NOT-REPRODUCED")
 	}
 }
+
+// C05 "expired ones never work": the challenge stored for the user carries an ExpiresAt one minute in the past (the
+// janitor has not come round yet); a software token answers it correctly.
+func TestVerifReplayU2FChallengeExpired(t *testing.T) {
+	state, tmpdir, err := testCreateRuntimeStateWithBothCAs(t)
+	if err != nil {
+		t.Fatal(err)
+	}
+	defer os.RemoveAll(tmpdir)
+	const user = "username"
+	appID := "https://" + state.HostIdentity
+	b64 := func(b []byte) string { return strings.TrimRight(base64.URLEncoding.EncodeToString(b), "=") }
+	// a legacy registration of some other token (the handler insists on at least one) ...
+	otherKey, _ := ecdsa.GenerateKey(elliptic.P256(), rand.Reader)
+	otherKH := []byte("other-token-key-handle-000000000")
+	// ... and the token the user actually holds, registered through webauthn
+	key, _ := ecdsa.GenerateKey(elliptic.P256(), rand.Reader)
+	kh := []byte("webauthn-token-key-handle-111111")
+	profile := &userProfile{
+		U2fAuthData:  map[int64]*u2fAuthData{1: {Enabled: true, Name: "old", Registration: verifU2FRegistration(t, otherKey, otherKH)}},
+		WebauthnData: map[int64]*webauthAuthData{2: {Enabled: true, Name: "new", Credential: webauthn.Credential{ID: kh, PublicKey: elliptic.Marshal(elliptic.P256(), key.X, key.Y)}}},
+	}
+	if err := state.SaveUserProfile(user, profile); err != nil {
+		t.Fatal(err)
+	}
+	challenge := &u2f.Challenge{Challenge: []byte("0123456789abcdef0123456789abcdef"), Timestamp: time.Now(), AppID: appID, TrustedFacets: []string{appID}}
+	state.localAuthData = map[string]localUserData{user: {U2fAuthChallenge: challenge, ExpiresAt: time.Now().Add(-time.Minute)}}
+	clientData, _ := json.Marshal(map[string]string{"typ": "navigator.id.getAssertion", "challenge": b64(challenge.Challenge), "origin": appID})
+	rawAuth := []byte{0x01, 0, 0, 0, 7} // user present, counter 7
+	appParam := sha256.Sum256([]byte(appID))
+	cdHash := sha256.Sum256(clientData)
+	var buf []byte
+	buf = append(buf, appParam[:]...)
+	buf = append(buf, rawAuth...)
+	buf = append(buf, cdHash[:]...)
+	digest := sha256.Sum256(buf)
+	sig, _ := ecdsa.SignASN1(rand.Reader, key, digest[:])
+	_ = binary.BigEndian
+	signResp, _ := json.Marshal(u2f.SignResponse{KeyHandle: b64(kh), SignatureData: b64(append(append([]byte{}, rawAuth...), sig...)), ClientData: b64(clientData)})
+	present := func() (int, int) {
+		cookieVal, err := state.genNewSerializedAuthJWT(user, AuthTypePassword, 60)
+		if err != nil {
+			t.Fatal(err)
+		}
+		req := httptest.NewRequest("POST", u2fSignResponsePath, bytes.NewReader(signResp))
+		req.AddCookie(&http.Cookie{Name: authCookieName, Value: cookieVal})
+		rec := httptest.NewRecorder()
+		state.u2fSignResponse(&instrumentedwriter.LoggingWriter{ResponseWriter: rec}, req)
+		level := 0
+		for _, c := range rec.Result().Cookies() {
+			if c.Name == authCookieName {
+				if info, err := state.getAuthInfoFromAuthJWT(c.Value); err == nil {
+					level = info.AuthType
+				}
+			}
+		}
+		return rec.Code, level
+	}
+	c1, l1 := present()
+	t.Logf("challenge whose ExpiresAt passed a minute ago, valid assertion -> status %d level %#x", c1, l1)
+	if l1&AuthTypeU2F != 0 {
+		t.Logf("REPLAY-CONFIRMED: an expired hardware-token challenge was honoured")
+	} else {
+		t.Logf("REPLAY-NOT-REPRODUCED")
+	}
+}
